@@ -9,6 +9,9 @@
 #include <sys/time.h>
 #include <unistd.h>
 
+/* per-case switch: incomplete-factorization configurations use DROP_BASIC with ILU_FillFactor = cfg->fill */
+static int g_ilu_basic;
+
 typedef struct {
     int mode;       /* 0 = library allocation (lwork 0), 1 = caller workspace */
     int fill;       /* fill estimate given through H1 */
